@@ -80,7 +80,7 @@ class TLCResult:
 
 
 def run_tlc(module, cfg_path, workers=16, env=None, coverage=False, timeout=3600,
-            extra=(), heap='8g', simulate=None, depth=None):
+            extra=(), heap='8g', simulate=None, depth=None, witness_limit=None, rng=None):
     """run TLC on spec/<module>.tla with the given cfg; returns TLCResult"""
     meta = tempfile.mkdtemp(prefix='usimverif-tlc-')
     cmd = ['java', '-XX:+UseParallelGC', '-Xmx' + heap, '-Djava.io.tmpdir=' + meta, '-cp', JAR, 'tlc2.TLC',
@@ -98,16 +98,42 @@ def run_tlc(module, cfg_path, workers=16, env=None, coverage=False, timeout=3600
     if env:
         e.update(env)
     t0 = time.time()
+    # the output is streamed: witness lines (the bulk: up to millions of them) go through a seeded reservoir sample,
+    # everything else is kept as text for the report parser
+    import threading
+    from witness import _W
+    res, seen, other = [], 0, []
+    p = subprocess.Popen(cmd, cwd=SPEC_DIR, env=e, stdout=subprocess.PIPE, stderr=subprocess.STDOUT, text=True,
+                         errors='replace', bufsize=1 << 20)
+    timed_out = []
+
+    def kill():
+        timed_out.append(True)
+        p.kill()
+    timer = threading.Timer(timeout, kill)
+    timer.start()
     try:
-        p = subprocess.run(cmd, cwd=SPEC_DIR, env=e, stdout=subprocess.PIPE, stderr=subprocess.STDOUT,
-                           timeout=timeout, text=True, errors='replace')
-        out, rc = p.stdout, p.returncode
-    except subprocess.TimeoutExpired as err:
-        out = (err.stdout or b'')
-        out = out.decode('utf8', 'replace') if isinstance(out, bytes) else out
+        for line in p.stdout:
+            if '<<"W"' in line:
+                for m in _W.finditer(line):
+                    seen += 1
+                    if witness_limit is None or len(res) < witness_limit:
+                        res.append(m.group(1))
+                    else:
+                        j = rng.randrange(seen)
+                        if j < witness_limit:
+                            res[j] = m.group(1)
+            else:
+                other.append(line)
+        rc = p.wait()
+    finally:
+        timer.cancel()
+        shutil.rmtree(meta, ignore_errors=True)
+    out = ''.join(other)
+    if timed_out:
         out += '\nError: TLC timed out after %ds' % timeout
         rc = 124
-        subprocess.run(['pkill', '-f', meta], check=False)
-    finally:
-        shutil.rmtree(meta, ignore_errors=True)
-    return TLCResult(out, rc, time.time() - t0)
+    r = TLCResult(out, rc, time.time() - t0)
+    r.witness_raw, r.witness_total = res, seen
+    return r
+
